@@ -36,7 +36,7 @@ ASSUMPTIONS = [
     'store_z/store_f/store_h/store_i = 0 (defaults); z columns are outside the model',
 ]
 CORPUS = os.path.join(C.ROOT, 'corpus', 'c15')
-TMP = os.path.join(C.WORK, 'c15-tmp')
+TMP = os.path.join(C.WORK, 'c15-tmp-%d' % os.getpid())
 
 # (model, varname, dev position or None); model names that do not exist in a case are "invalid rows" there
 OUT_ROWS = [
@@ -316,7 +316,7 @@ def _worker(sc):
         return sc, None, traceback.format_exc()[-1500:]
 
 
-def run_many(worker, items, procs=12):
+def run_many(worker, items, procs=8):
     import multiprocessing as mp
     if len(items) < 4:
         return [worker(s) for s in items]
@@ -433,7 +433,7 @@ def oracle(sc, obs):
     exp_sel = expected_selection(sc, obs)
     if exp_sel != obs['sel']:
         bad.append(('selection-wrong', 'Output.xidx/yidx %r, the Output rows select %r' % (obs['sel'], exp_sel)))
-    sel = exp_sel
+    sel = obs['sel']     # equal to the expected one unless 'selection-wrong' was just reported
     nseg = len(sc['tfs'])
     for si, s in enumerate(obs['snaps']):
         kept = [(t, proj(sel, x, y)) for k, (t, x, y) in enumerate(rec[:s['nsteps']])
@@ -543,7 +543,12 @@ def oracle(sc, obs):
         ok_cols = [col(a) for a in asked]
         if 'data' in q:
             got = q['data']
-            want = [[] for r in mat] if None in ok_cols else [[r[c] for c in ok_cols] for r in mat]
+            try:
+                want = [[] for r in mat] if None in ok_cols else [[r[c] for c in ok_cols] for r in mat]
+            except IndexError:
+                want = None
+                bad.append(('query-wrong-data', 'the in-memory matrix has fewer columns than the selection'))
+                continue
             if len(got) != len(want) or any(len(g) != len(w) or any(f2h(a) != f2h(b) for a, b in zip(g, w))
                                                             for g, w in zip(got, want)):
                 mono = all(a < b for a, b in zip(addr, addr[1:]))
@@ -760,6 +765,8 @@ def run_csv(c):
             s0.TDS.init()
             _ncol[key] = (s0.dae.n + s0.dae.m) if s0.Output.n == 0 else len(s0.Output.xidx) + len(s0.Output.yidx)
         ncol = _ncol[key]
+        if c.get('ncol_only'):
+            return None
         ss = build()
         tds, dae, cfg = ss.TDS, ss.dae, ss.TDS.config
         cfg.criteria = 0
@@ -865,7 +872,10 @@ def check_csv(ctx, n):
     for c in cases:      # row widths are computed once, before the fork
         key = json.dumps([c['case'], c['out_rows']])
         if key not in _ncol:
-            _csv_worker(dict(c, times=[0.0, 0.1, 0.2], save_every=1, limit_store=0))
+            try:
+                run_csv(dict(c, times=[], ncol_only=True))
+            except Exception:
+                pass     # the worker will report the exception for this case
     res = run_many(_csv_worker, cases)
     lines, idx = [], []
     for i, (c, obs, err) in enumerate(res):
@@ -947,7 +957,7 @@ def search(ctx):
 
 
 def replay(ctx, rep):
-    case = rep['case']
+    case = rep if ('tfs' in rep or rep.get('kind') == 'csv') else rep['case']     # raw corpus file or replay file
     if isinstance(case, list):
         case = case[0]
     if case.get('kind') == 'csv':
